@@ -20,14 +20,23 @@ def _on_alarm(sig, frm):
     raise Alarm()
 
 
-def _worker(chunk):
+MODULES = ["Bitwise", "Core", "Date", "IO", "List", "Math", "Predicate", "Random", "Set", "String", "Stat", "Sys", "Type"]
+
+
+def _worker(job):
+    legacy, chunk = job
     core.use_repo()
     from ckl.interpreter import Interpreter
     from ckl.errors import CklRuntimeError
-    if "it" not in _state:
-        _state["it"] = Interpreter(True, True)
+    key = "it_legacy" if legacy else "it_modules"
+    if key not in _state:
+        it = _state[key] = Interpreter(True, legacy)
+        if not legacy:
+            # the library as a program without the legacy globals sees it: module code resolves its names in the plain base environment
+            for m in MODULES:
+                it.interpret(f"require {m} unqualified", "req")
         signal.signal(signal.SIGALRM, _on_alarm)
-    it = _state["it"]
+    it = _state[key]
     out = []
     for func, req, src, env in chunk:
         for k, v in env.items():
@@ -193,17 +202,20 @@ def run(ctx):
                 "through union/intersection/diff/symmetric_diff/unique/reverse/flatten/zip/enumerate/range/interval/chunks/pairs/grouped/"
                 "filter/map_list/reduce/sum/prod/count/any/all; all permutations of lists of length <= 5 through mean/median*/min/max; int "
                 "arguments up to 2^80 through pow/gcd/lcm/abs/sign/div/mod; all 32-bit boundary words x shift counts -40..40 through the "
-                "bitwise functions; checked against the defining laws (host ints, set theory, permutation invariance) and the Lean model; "
+                "bitwise functions; each case in an interpreter with the legacy globals and in one that requires the modules (same answer demanded); checked against the defining laws (host ints, set theory, permutation invariance) and the Lean model; "
                 "non-trivial = every case (duplicates, mixed 1/1.0 and huge ints dominate)")
     chunks = [cases[i:i + 1500] for i in range(0, len(cases), 1500)]
     with mp.Pool(16) as pool:
-        real = [r for res in pool.map(_worker, chunks) for r in res]
+        real = [r for res in pool.map(_worker, [(True, c) for c in chunks]) for r in res]
+        plain = [r for res in pool.map(_worker, [(False, c) for c in chunks]) for r in res]
     resp = core.run_driver([c[1] for c in cases]) if ctx.build.ok else [None] * len(cases)
     perm_groups = collections.defaultdict(set)
-    for (func, req, src, env), r, m in zip(cases, real, resp):
+    for (func, req, src, env), r, m, r2 in zip(cases, real, resp, plain):
         ctx.seen((func, req), nontrivial=True)
         ctx.count("cases_" + func)
         rp = {"op": func, "program": src, "vars": {k: proto.show(v) for k, v in env.items()}}
+        if r2[0] != r[0] or (r[0] == 'ok' and r2 != r):
+            ctx.violation("oracle", f"`{src}` with {rp['vars']} gives {r2} when the library is required as modules, {r} with the legacy globals", dict(rp, mode="modules"))
         if r[0] in ('host', 'timeout', 'notdata'):
             ctx.violation("oracle", f"`{src}` with {rp['vars']} ends with {r}", rp)
             continue
